@@ -463,6 +463,54 @@ def case_bootstrap(col, p):
     col.distinct('nontrivial', ('bootstrap', nchunks))
 
 
+def case_boot_subsample(col, p):
+    """bootstraps_subsample_vcf for every (mask_corners, polarized) pair: with the subsample equal to the full sample and one chunk there is
+    nothing random, so every bootstrap equals from_data_dict of the same data with the same two flags"""
+    import dadi
+    layout = tuple(p['layout'])
+    nind = sum(layout)
+    rows = []
+    pos = 0
+    for gts in itertools.product(GT[:3], repeat=nind):      # fully called genotypes only
+        for aa in ('ref', 'alt'):
+            r = Row()
+            pos += 1
+            r.chrom, r.pos, r.gts, r.aa, r.filt, r.alleles = '1', pos, gts, aa, 'PASS', 'plain'
+            rows.append(r)
+    tmp = _tmp()
+    n = 0
+    try:
+        vcf = os.path.join(tmp, 'b.vcf')
+        popf = os.path.join(tmp, 'pop.txt')
+        names = write_vcf(vcf, rows, layout)
+        write_popinfo(popf, names, layout)
+        pops = ['pop%d' % k for k in range(len(layout))]
+        subs = {q: k for q, k in zip(pops, layout)}
+        proj = [2 * k for k in layout]
+        import warnings
+        with warnings.catch_warnings():
+            warnings.simplefilter('ignore')
+            dd = dadi.Misc.make_data_dict_vcf(vcf, popf)
+            for mc, pol in itertools.product((True, False), (True, False)):
+                ex = dadi.Spectrum.from_data_dict(dd, pops, proj, mask_corners=mc, polarized=pol)
+                boots = dadi.Misc.bootstraps_subsample_vcf(vcf, popf, dict(subs), 2, 10 ** 9, pops, mask_corners=mc, polarized=pol)
+                col.tick(transitions=2)
+                n += 1
+                info = dict(kind='boot_subsample', layout=layout, mask_corners=mc, polarized=pol)
+                if len(boots) != 2:
+                    col.violation('C13:bootstraps_subsample_vcf:count', info, len(boots))
+                for b in boots:
+                    if bool(b.folded) != (not pol) or not np.array_equal(np.ma.getmaskarray(b), np.ma.getmaskarray(ex)) or \
+                            not np.allclose(np.asarray(b.data), np.asarray(ex.data), rtol=1e-12, atol=1e-12):
+                        col.violation('C13:bootstraps_subsample_vcf:differs_from_from_data_dict', info,
+                                      {'folded': bool(b.folded), 'total': float(np.asarray(b.data).sum()), 'expected_total': float(np.asarray(ex.data).sum())})
+                        break
+    finally:
+        shutil.rmtree(tmp, ignore_errors=True)
+    col.tick(states=n, traces=n)
+    col.distinct('nontrivial', ('boot_subsample', layout))
+
+
 def tajima_constants(n):
     a1 = sum(1.0 / i for i in range(1, n))
     a2 = sum(1.0 / i ** 2 for i in range(1, n))
@@ -574,7 +622,7 @@ def case_fst(col, p):
     col.distinct('nontrivial', ('fst', ns))
 
 
-CASES = {'vcf': case_vcf, 'snpfile': case_snpfile, 'subsample': case_subsample, 'chunks': case_chunks, 'bootstrap': case_bootstrap,
+CASES = {'vcf': case_vcf, 'boot_subsample': case_boot_subsample, 'snpfile': case_snpfile, 'subsample': case_subsample, 'chunks': case_chunks, 'bootstrap': case_bootstrap,
          'stats1d': case_stats1d, 'fst': case_fst}
 
 
@@ -595,6 +643,8 @@ def run(ctx):
     for layout, sub in (((3,), (2,)), ((3,), (1,)), ((3,), (3,)), ((2, 2), (1, 2)), ((2, 2), (1, 1)), ((4,), (2,))) + ((((3, 2), (2, 1)), ((5,), (3,)), ((5,), (2,)), ((6,), (3,)), ((3, 3), (2, 2)), ((4, 2), (2, 1)), ((2, 2, 2), (1, 1, 1))) if not ctx.quick else ()):
         cases.append({'kind': 'subsample', 'layout': layout, 'subsample': sub})
     cases.append({'kind': 'chunks'})
+    for layout in ((2,), (1, 2)) + (((3,), (2, 2)) if not ctx.quick else ()):
+        cases.append({'kind': 'boot_subsample', 'layout': layout})
     for k in (1, 2, 3, 4) + ((5, 6) if not ctx.quick else ()):
         cases.append({'kind': 'bootstrap', 'nchunks': k})
     for n in (2, 3, 4, 5, 6) + ((7, 8, 9, 10, 12, 16, 20) if not ctx.quick else ()):
